@@ -12,6 +12,9 @@
 package main
 
 import (
+	"github.com/pion/rtp"
+	pcodecs "github.com/pion/rtp/codecs"
+
 	"encoding/json"
 	"fmt"
 	"os"
@@ -41,6 +44,7 @@ type op struct {
 	K      bool `json:"key,omitempty"`
 	Up     bool `json:"up,omitempty"`     // temporal up-switch point
 	NonRef bool `json:"nonref,omitempty"` // vp9 Z
+	NoL    bool `json:"nol,omitempty"`    // vp9 without layer indices (L=0): temporal and spatial layer 0, not an up-switch point
 	Late   bool `json:"late,omitempty"`
 	N      int  `json:"n,omitempty"`
 }
@@ -64,6 +68,8 @@ type world struct {
 	gotRR   bool
 	outcome string
 	pic     int
+	// packets that galene's PacketFlags classified differently from their bits
+	misclassified int
 }
 
 // presets are non-initial layer states (all reachable by longer histories:
@@ -116,6 +122,8 @@ func (w *world) pktOps() []op {
 		}
 		ops = append(ops, op{Kind: "pkt", Tid: 0, Sidv: sid, Start: true, NonRef: true})
 	}
+	// packets of a stream (or of stretches of one) without layer indices
+	ops = append(ops, op{Kind: "pkt", NoL: true}, op{Kind: "pkt", NoL: true, Start: true}, op{Kind: "pkt", NoL: true, Start: true, K: true})
 	return ops
 }
 
@@ -283,7 +291,7 @@ func (w *world) packet(o op, before rtpconn.VerifLayer) *core.Violation {
 			S: o.Start, Keyframe: o.K, Body: []byte{1, 2, 3}}.Bytes()
 	} else {
 		buf = media.VP9{Hdr: media.Hdr{Seq: seq, TS: uint32(p) * 3000, Marker: true, PT: 98, SSRC: fwd.UpSSRC},
-			I: true, M: true, L: true, F: true, P: !o.K, PDiff: []uint8{1}, B: o.Start, E: true, Z: o.NonRef,
+			I: true, M: true, L: !o.NoL, F: true, P: !o.K, PDiff: []uint8{1}, B: o.Start, E: true, Z: o.NonRef,
 			PictureID: 7, TID: uint8(o.Tid), U: o.Up, SID: uint8(o.Sidv), D: o.Sidv > 0,
 			Keyframe: o.K, Body: []byte{1, 2, 3}}.Bytes()
 	}
@@ -291,14 +299,19 @@ func (w *world) packet(o op, before rtpconn.VerifLayer) *core.Violation {
 	if w.vp9 {
 		codec = "video/VP9"
 	}
-	// what galene's classifier makes of it must be what we meant
+	selfCheck(w.vp9, buf, o)
+	// what galene's classifier makes of it should be what we meant
 	f, err := gcodecs.PacketFlags(codec, buf)
 	if err != nil {
 		panic("harness packet not parsable: " + err.Error())
 	}
 	if f.Start != o.Start || f.Keyframe != o.K || int(f.Tid) != o.Tid || int(f.Sid) != o.Sidv ||
 		f.TidUpSync != (o.K || o.Up) || f.SidNonReference != o.NonRef {
-		panic(fmt.Sprintf("harness packet flags mismatch: %+v vs %+v", f, o))
+		// galene's classifier disagrees with the bits of the packet (which
+		// pion's parser and the builder agree on, see selfCheck): not a
+		// verdict by itself -- the oracles below judge what is forwarded
+		// against the packet's real flags
+		w.misclassified++
 	}
 	prevMaxTid, prevMaxSid := w.maxTid, w.maxSid
 	if o.Tid > w.maxTid {
@@ -347,6 +360,32 @@ func (w *world) packet(o op, before rtpconn.VerifLayer) *core.Violation {
 	}
 	w.outcome = fmt.Sprintf("pkt/%v/%d%d->%d%d", len(out) > 0, before.Sid, before.Tid, after.Sid, after.Tid)
 	return w.invariants(after)
+}
+
+// selfCheck verifies with pion's own depacketisers (independent of galene's
+// classifier) that the packet the harness built carries the intended flags.
+func selfCheck(vp9 bool, buf []byte, o op) {
+	var p rtp.Packet
+	if err := p.Unmarshal(buf); err != nil {
+		panic("harness packet not parsable: " + err.Error())
+	}
+	if !vp9 {
+		var v pcodecs.VP8Packet
+		if _, err := v.Unmarshal(p.Payload); err != nil {
+			panic("harness VP8 payload not parsable: " + err.Error())
+		}
+		if int(v.TID) != o.Tid || (v.S == 1) != o.Start || (v.Y == 1) != o.Up {
+			panic(fmt.Sprintf("harness VP8 packet does not carry the intended flags: %+v vs %v", v, o))
+		}
+		return
+	}
+	var v pcodecs.VP9Packet
+	if _, err := v.Unmarshal(p.Payload); err != nil {
+		panic("harness VP9 payload not parsable: " + err.Error())
+	}
+	if v.L == o.NoL || v.B != o.Start || v.Z != o.NonRef || (v.L && (int(v.TID) != o.Tid || int(v.SID) != o.Sidv || v.U != o.Up)) {
+		panic(fmt.Sprintf("harness VP9 packet does not carry the intended flags: %+v vs %v", v, o))
+	}
 }
 
 func (w *world) Canon() string {
